@@ -1259,6 +1259,47 @@ func TestC03Schedules(t *testing.T) {
 		func(c *overlapCase) bool { return true })
 }
 
+// ---- C04: two constructions of one constructor at once: each is called with its own arguments ----
+
+// argsOfOwnResolution: what a constructor was called with was resolved for this very call: a scoped
+// argument is an instance of the scope the call was made for, a transient argument was made by the
+// goroutine that makes the call, during it.
+func (x *run) argsOfOwnResolution(obs []seen) *Failure {
+	for _, s := range obs {
+		if s.ByInv == nil || s.E == nil || s.E.Inv == nil {
+			continue
+		}
+		reg := x.M.Regs[s.Owner.Reg]
+		switch {
+		case reg.Form == kit.FormInstance:
+		case reg.Life == kit.Scoped && s.E.ScopeTag != s.ByInv.ScopeTag && s.ByInv.ScopeTag >= 0:
+			return fail("C04", "right-argument", "other-scope/"+s.ViaKind, "%s: r%d, called for scope s%d, received %v, the instance of scope s%d", s.Where, s.ByInv.Reg, s.ByInv.ScopeTag, s.E, s.E.ScopeTag)
+		case reg.Life == kit.Transient && (s.E.Inv.Goid != s.ByInv.Goid || s.E.Inv.StartSeq > s.ByInv.StartSeq):
+			return fail("C04", "right-argument", "other-call/"+s.ViaKind, "%s: invocation #%d of r%d received transient %v, which was made for another call (goroutine %d, this call runs on %d)", s.Where, s.ByInv.N, s.ByInv.Reg, s.E, s.E.Inv.Goid, s.ByInv.Goid)
+		}
+	}
+	return nil
+}
+
+func TestC04Schedules(t *testing.T) {
+	g := c02ScheduleOpts()
+	g.Lifetimes = []int{kit.Singleton, kit.Scoped, kit.Scoped, kit.Transient, kit.Transient}
+	runOverlapTest(t, "C04", "controlled-schedules",
+		"controlled two-thread programs over configurations whose services depend on each other a lot: thread A resolves an identity in a scope and is parked at the n-th constructor entry/exit it reaches or at a schedule point inside godi, i.e. between two of the arguments of some constructor; thread B then resolves the same identity (or another one) in another scope or the same one and runs to completion; A is released; oracle = the C04 ledger oracle on everything both threads saw (instances and every argument of every constructor call are made by the registration that owns the identity) and every argument was resolved for that very call: scoped arguments are instances of the scope the call was made for, transient arguments were made during that call by its goroutine; non-trivial = A was parked",
+		overlapOpts{Gen: g, AKinds: []string{"get"}, BKinds: []string{"same-get-elsewhere", "same-get-elsewhere", "same-get", "get"}, GateKind: allGates, ExtraScopes: 1},
+		func(c *overlapCase) *Failure {
+			if f := c.checkOverlapResults("C04"); f != nil && (f.Oracle == "no-hang" || f.Oracle == "no-panic") {
+				return f
+			}
+			obs, problems := c.X.observations()
+			if f := c.X.checkC04(obs, problems); f != nil {
+				return f
+			}
+			return c.X.argsOfOwnResolution(obs)
+		},
+		func(c *overlapCase) bool { return true })
+}
+
 // ---- C18: constructions in two scopes at once: each gets its own scope's built-ins ----
 
 // sprinkleBuiltins appends context / Scope / Provider dependencies to constructors
